@@ -34,7 +34,29 @@ pub fn quiet_panics() {
     }
 }
 
+/// A logger that accepts everything and writes nothing. Whether the *level* lets records through is part of
+/// the simulated environment: replicas whose role starts with "logging" run with the maximum level at Trace,
+/// all others with logging off (the state of every unit test and of the default CLI build).
+struct NoopLogger;
+impl log::Log for NoopLogger {
+    fn enabled(&self, _: &log::Metadata) -> bool {
+        true
+    }
+    fn log(&self, record: &log::Record) {
+        // format the message like a real logger would (so that argument evaluation happens), then drop it
+        let _ = format!("{}", record.args());
+    }
+    fn flush(&self) {}
+}
+static LOGGER: NoopLogger = NoopLogger;
+
+pub fn set_logging(on: bool) {
+    log::set_max_level(if on { log::LevelFilter::Trace } else { log::LevelFilter::Off });
+}
+
 fn main() {
+    let _ = log::set_logger(&LOGGER);
+    set_logging(false);
     let args: Vec<String> = std::env::args().collect();
     let code = driver::main(&args);
     std::process::exit(code);
